@@ -1,13 +1,16 @@
 package gh
 
 import (
+	"bytes"
 	"context"
+	"errors"
 	"fmt"
 	"math"
 	"os"
 	"reflect"
 	"sort"
 	"strconv"
+	"strings"
 
 	"github.com/DavidGamba/go-getoptions"
 )
@@ -228,6 +231,10 @@ func (b *Built) defineOpt(i int, g *getoptions.GetOpt) {
 	if len(o.Sugg) > 0 {
 		fns = append(fns, g.SuggestedValues(StringsOf(o.Sugg)...))
 	}
+	if len(o.SuggFn) > 0 {
+		out := StringsOf(o.SuggFn)
+		fns = append(fns, g.SuggestedValuesFn(func(target string, partial string) []string { return append([]string{}, out...) }))
+	}
 	if len(o.Env) > 0 {
 		fns = append(fns, g.GetEnv(FromAtoms(o.Env)))
 	}
@@ -414,6 +421,57 @@ func (b *Built) commandFn(n int) getoptions.CommandFn {
 					r.ViewOK = false
 				}
 			}
+		}
+		r.Req = []ReqRes{}
+		if kinds := b.Cfg.Nodes[n-1].ReqArgs; len(kinds) > 0 {
+			saved := getoptions.Writer
+			rest := args
+			for _, k := range kinds {
+				var w bytes.Buffer
+				getoptions.Writer = &w
+				q := ReqRes{Val: Tok{}, Msg: Tok{}}
+				var err error
+				switch k {
+				case "i":
+					var v int
+					v, rest, err = view.GetRequiredArgInt(rest)
+					if err == nil {
+						q.Val = Tok{strconv.Itoa(v)}
+					}
+				case "f":
+					var v float64
+					v, rest, err = view.GetRequiredArgFloat64(rest)
+					if err == nil {
+						q.Val = Tok{FloatBits(v)}
+					}
+				default:
+					var v string
+					v, rest, err = view.GetRequiredArg(rest)
+					if err == nil {
+						q.Val = ToAtoms(v)
+					}
+				}
+				q.Left = len(rest)
+				out := w.String()
+				switch {
+				case err == nil:
+				case errors.Is(err, getoptions.ErrorHelpCalled):
+					q.Ek = "missing"
+					line := out
+					if i := strings.Index(out, "\n"); i >= 0 {
+						line = out[:i]
+						q.Syn = strings.HasPrefix(out[i+1:], "SYNOPSIS:\n")
+					}
+					q.Msg = ToAtoms(line)
+				case strings.HasPrefix(err.Error(), "Argument error: Can't convert string to"):
+					q.Ek = "conv"
+					q.Msg = ToAtoms(err.Error())
+				default:
+					q.Ek = "other"
+				}
+				r.Req = append(r.Req, q)
+			}
+			getoptions.Writer = saved
 		}
 		b.Ran = append(b.Ran, r)
 		return nil
